@@ -53,6 +53,8 @@ class DType:
 
     @property
     def kind(self):
+        if self.name == "possibly_complex":
+            return "pc"     # result of numpy.linalg.eig: complex in general (A3)
         if self.name.startswith("complex"):
             return "c"
         if self.name.startswith("float"):
